@@ -494,6 +494,7 @@ type PureFn struct {
 type GhostField struct {
 	Name string
 	Sort Sort
+	Of   string // struct type whose objects carry this ghost field ("" = keyed by something else)
 }
 
 type UFDecl struct {
@@ -708,6 +709,10 @@ func (ss *SpecSet) parseLine(l specLine, cur **Contract) error {
 		// ghostfield name int|bool|intarray
 		name, srt := splitWord(rest)
 		g := &GhostField{Name: name}
+		if k := strings.Index(srt, " of "); k >= 0 {
+			g.Of = strings.TrimSpace(srt[k+4:])
+			srt = strings.TrimSpace(srt[:k])
+		}
 		switch srt {
 		case "int", "":
 			g.Sort = SInt
